@@ -50,9 +50,12 @@ try:
                 first = lines[viol[0] + 1].strip()[:300] if viol and viol[0] + 1 < len(lines) else ''
                 res = {'exit': p.returncode, 'violations': len(viol), 'with_failing_input': len(viol) - len(noinput), 'first': first,
                        'wall_s': round(time.time() - t0, 1)}
-                matrix = json.loads(mpath.read_text()) if mpath.exists() else {}
-                matrix.setdefault(s, {})[c] = res
-                mpath.write_text(json.dumps(matrix, indent=1, sort_keys=True))
+                import fcntl
+                with open(str(mpath) + '.lock', 'w') as lk:          # several runners may work on disjoint seeds at the same time
+                    fcntl.flock(lk, fcntl.LOCK_EX)
+                    matrix = json.loads(mpath.read_text()) if mpath.exists() else {}
+                    matrix.setdefault(s, {})[c] = res
+                    mpath.write_text(json.dumps(matrix, indent=1, sort_keys=True))
                 print(s, c, 'CAUGHT' if p.returncode == 1 else ('missed' if p.returncode == 0 else f'ERROR rc={p.returncode}'),
                       res['with_failing_input'], res['wall_s'], flush=True)
         finally:
